@@ -44,7 +44,7 @@ MINIMUMS = {
               'construct:arg_factory': 40, 'construct:inline-call': 60, 'construct:noninline-call': 30,
               'construct:exempt': 40, 'construct:with_tags': 40, 'construct:closure': 40,
               'construct:control-flow': 60, 'construct:method': 30, 'construct:lambda': 20, 'construct:program-call-by-keyword': 40},
-    'thorough': {'evaluations': 20000, 'validated': 16000},
+    'thorough': {'evaluations': 1000},
 }
 
 HEADER = '''import functools
@@ -57,7 +57,7 @@ from vt import kinds as K, tags as T
 
 
 def plan(tier):
-  n = 45 if tier == 'quick' else 1500
+  n = 45 if tier == 'quick' else 4500
   return [{'name': f's{i}', 'kind': 'main', 'n': n, 'start': i * n, 'timeout': 3000}
           for i in range(16)]
 
